@@ -50,6 +50,15 @@ def images(work: str, seed: int) -> List[Dict[str, Any]]:
     # the same image addressed through its twin directories: a request inside one twin, then inside the other
     out.append({"kind": "akai", "path": p, "map": {"root": "A:", "dir1": "A:/VOL A", "dir2": "A:/VOL A (2)", "file": "A:/VOL A/S0", "file2": "A:/VOL A (2)/S2",
                                                   "bad": "A:/VOL A (3)"}})
+    # damaged images: the scan from offset 0 fails and finds no partition, while a well-formed partition starts exactly where
+    # the failed parse stops (after the size word and the damaged constant / after a short head): whatever a fresh object
+    # answers - nothing to list, nothing to export - a used object must answer too
+    small = aw.build_image(naming.akai_files_case(["TONE", "BASS-L", "BASS-R"], [60, 70, 70]), seed)
+    for tag, prefix in (("junk4", b"\x80\x00\xaa\xaa"), ("junk2", b"\x80\x00"), ("junk6", b"\x80\x00\x00\x00\x55\x55")):
+        pj = os.path.join(work, f"akai_{tag}.img")
+        open(pj, "wb").write(prefix + small)
+        out.append({"kind": f"akai-{tag}", "path": pj, "map": {"root": "", "dir1": "A:", "dir2": "A:/VOL", "file": "A:/VOL/TONE", "file2": "A:/VOL/BASS-L",
+                                                              "bad": "B:"}})
     r = naming.roland_dirs_case(["Perf X", "Lead-"], "performance")
     r["img"]["samples"][0]["name"] = "Lead-"            # a sample of the FIRST performance named like the second performance
     # a sample used by BOTH performances, stored in a permuted three-cluster chain behind a leading-cluster offset: every
